@@ -361,6 +361,30 @@ func c01Recover(side *c01Side) {
 	}
 }
 
+// c01BuildWrapper builds the C2SWrapper a registrar forwards for the client's registration (the fields
+// gotapdance's generateClientToStation fills in).
+func c01BuildWrapper(c *c01Case, params *anypb.Any, v4, v6 bool) *pb.C2SWrapper {
+	tt := c01TT[c.Transport]
+	c2s := &pb.ClientToStation{
+		ClientLibVersion:          proto.Uint32(c.LibVer),
+		DecoyListGeneration:       proto.Uint32(c.Gen),
+		CovertAddress:             proto.String("192.0.2.10:443"),
+		V4Support:                 proto.Bool(v4),
+		V6Support:                 proto.Bool(v6),
+		Transport:                 tt.Enum(),
+		TransportParams:           params,
+		Flags:                     &pb.RegistrationFlags{UploadOnly: proto.Bool(false), ProxyHeader: proto.Bool(false), Use_TIL: proto.Bool(true)},
+		DisableRegistrarOverrides: proto.Bool(false),
+	}
+	src := pb.RegistrationSource(c.Source)
+	return &pb.C2SWrapper{
+		SharedSecret:        append([]byte(nil), c.Secret...),
+		RegistrationPayload: c2s,
+		RegistrationSource:  src.Enum(),
+		RegistrationAddress: []byte{198, 51, 100, 7},
+	}
+}
+
 // c01Eval runs station, client and reference on the case.
 func c01Eval(env *c01Env, c *c01Case) (out c01Out, harnessErr error) {
 	out.Station.Port, out.Client.Port, out.Ref.Port = -1, -1, -1
@@ -443,24 +467,7 @@ func c01Eval(env *c01Env, c *c01Case) (out c01Out, harnessErr error) {
 	}
 	env.e.rm.PhantomSelector = sel
 	tt := c01TT[c.Transport]
-	c2s := &pb.ClientToStation{
-		ClientLibVersion:          proto.Uint32(c.LibVer),
-		DecoyListGeneration:       proto.Uint32(c.Gen),
-		CovertAddress:             proto.String("192.0.2.10:443"),
-		V4Support:                 proto.Bool(!c.V6),
-		V6Support:                 proto.Bool(c.V6),
-		Transport:                 tt.Enum(),
-		TransportParams:           params,
-		Flags:                     &pb.RegistrationFlags{UploadOnly: proto.Bool(false), ProxyHeader: proto.Bool(false), Use_TIL: proto.Bool(true)},
-		DisableRegistrarOverrides: proto.Bool(false),
-	}
-	src := pb.RegistrationSource(c.Source)
-	w := &pb.C2SWrapper{
-		SharedSecret:        append([]byte(nil), c.Secret...),
-		RegistrationPayload: c2s,
-		RegistrationSource:  src.Enum(),
-		RegistrationAddress: []byte{198, 51, 100, 7},
-	}
+	w := c01BuildWrapper(c, params, !c.V6, c.V6)
 	w2 := proto.Clone(w).(*pb.C2SWrapper) // (the station rewrites the params' type url in place)
 	func() {
 		defer c01Recover(&out.Station)
